@@ -96,6 +96,12 @@ def validate(ctx, sd, exe, trace, what):
 def run(ctx):
     sd = ctx.stage()
     q = ctx.quick
+    import time
+    t = [time.time()]
+
+    def _stage(name):
+        ctx.notes.append("stage %s: %.1fs" % (name, time.time() - t[0]))
+        t[0] = time.time()
     ctx.assume("one transaction on one vmContext; contracts are addressed by their own address (no code indirection)",
                "storage values and transfer amounts are small integers (TLC); gas, return data and return messages "
                "are not part of C40 and not modelled",
@@ -134,7 +140,9 @@ def run(ctx):
           rest="VIEW cvars\nINVARIANTS TypeOK Inv_C40_OutputAccounts Inv_C40_Context")
     ctx.tlc(sd, "MC_VmContext", "r1c.cfg", timeout=1500)
 
+    _stage("R1 model checking")
     exe = ctx.go_build("vh-vmcontext")
+    _stage("build")
     # ---- R2a: every failed-inner-call transition of the abstract state graph, replayed with stub contracts
     write(sd, "gen.cfg", spec="GenSpec", log="LogAppend", defects="AllOn", deploys="TRUE", keys='"k1"', vals="1",
           maxtr=3, maxdepth=2, bound=6 if q else 7, rest="VIEW cvars\nACTION_CONSTRAINT EmitFailEdge")
@@ -145,6 +153,7 @@ def run(ctx):
     h = ctx.vh(exe, ["replay", beh], timeout=1500)
     tot = dict(b=int(h.stats.get("behaviours", 0)), s=int(h.stats.get("steps", 0)), d=int(h.stats.get("distinct", 0)),
                f=int(h.stats.get("failed_inner_calls", 0)), dr=int(h.stats.get("drifts", 0)))
+    _stage("R2a edges gen+replay")
     # ---- R2b: long random behaviours (3 nested activations, 2 keys, deletes, all base values)
     write(sd, "sim.cfg", spec="GenSpec", log="LogAppend", defects="AllOn", deploys="TRUE", balances="TRUE", base="0, 2", maxtr=6,
           maxdepth=3, bound=14, rest="ACTION_CONSTRAINT EmitFullFail")
@@ -159,6 +168,7 @@ def run(ctx):
     sigs = sorted(set(h.stats.get("signatures", []) + h2.stats.get("signatures", [])))
     ctx.cov(replay_signature_counts=sigs)
 
+    _stage("R2b simulation gen+replay")
     # ---- R3: traces recorded from the real vmContext through the recording EEI decorator, validated by TLC
     if os.path.exists(os.path.join(sd, "Trace_VmContext.tla")):
         tr = ctx.path("stub-trace.ndjson")
@@ -167,6 +177,7 @@ def run(ctx):
         n, how = validate(ctx, sd, exe, tr, "random stub-contract scripts")
         if n:
             ctx.cov(traces_validated_against_impl=nt, evaluations=n, stub_trace_validation=how)
+        _stage("R3 stub traces")
         tr2 = ctx.path("real-trace.ndjson")
         r4 = ctx.vh(exe, ["record-real", ctx.seed, 6 if q else 60, tr2])
         n2, how2 = validate(ctx, sd, exe, tr2, "real validator/staking/delegation contracts")
@@ -175,6 +186,7 @@ def run(ctx):
                     real_trace_validation=how2, real_failed_inner_calls=int(r4.stats.get("failed_inner_calls", 0)),
                     real_call_sites=r4.stats.get("sites", [])[:40])
             ctx.sample({"real_contract_trace_first_events": [json.loads(x) for x in open(tr2).read().splitlines()[1:4]]})
+        _stage("R3 real-contract traces")
         if not q and how == "accepted":
             def corrupt(evs):
                 # a failed inner call whose write is reported as rolled back although the code kept it
